@@ -977,3 +977,111 @@ func contentFromJSON(m map[string]any) *content {
 	}
 	return c
 }
+
+// TestExportHistory: serialisation over a HISTORY of exports and imports.  The
+// round-trip law must hold for every blob ever handed out, not only for the
+// most recent one: 2..5 documents (similar sizes on purpose, so that a reused
+// buffer would fit) are exported one after another, all blobs are kept; after
+// the last export every kept blob must still be byte-identical to the copy
+// taken when it was returned and must import to ITS OWN content.  Then the
+// caller scribbles over a blob after importing it: the imported document and
+// evidence must not change (no aliasing in either direction), and a second
+// export of the same document must equal the first.
+func TestExportHistory(t *testing.T) {
+	evid.RapidCheck(t, 800, 16000, func(rt *rapid.T) {
+		n := rapid.IntRange(2, 5).Draw(rt, "exports")
+		type kept struct {
+			c      *content
+			doc    *document.Document
+			blobs  [3][]byte
+			copies [3][]byte
+		}
+		var hist []kept
+		first := genContent(rt, false)
+		for i := 0; i < n; i++ {
+			c := first
+			if i > 0 {
+				if rapid.Bool().Draw(rt, "same-shape") {
+					// same files, other evidence values of the same lengths: blobs of equal size
+					c2 := *first
+					c2.Ev = perturbEvidence(rt, first.Ev)
+					c = &c2
+				} else {
+					c = genContent(rt, false)
+				}
+			}
+			doc := buildDoc(rt, c)
+			k := kept{c: c, doc: doc, blobs: export(rt, c, doc)}
+			for j := range k.blobs {
+				k.copies[j] = bytes.Clone(k.blobs[j])
+			}
+			hist = append(hist, k)
+		}
+		evid.Case(fmt.Sprintf("export-history/n%d", n), true, contentKey(first)+fmt.Sprint(n), nil)
+		for i, k := range hist {
+			for _, kind := range []blobKind{bDoc, bEx, bEv} {
+				if !bytes.Equal(k.blobs[kind], k.copies[kind]) {
+					failRT(rt, "export-history", k.c, kind, k.copies[kind], "the %s blob returned by export #%d of %d was changed by a later export", blobName[kind], i+1, n)
+				}
+				rejected, diff, _ := importBlob(kind, k.blobs[kind], k.c)
+				if rejected || diff != "" {
+					failRT(rt, "export-history", k.c, kind, k.blobs[kind], "the %s blob of export #%d of %d no longer imports to its own content after later exports (rejected=%v %s)", blobName[kind], i+1, n, rejected, diff)
+				}
+			}
+		}
+		// import, then scribble over the caller's buffer
+		k := hist[rapid.IntRange(0, n-1).Draw(rt, "which")]
+		buf := bytes.Clone(k.blobs[bEx])
+		doc, bundle, err := document.UnmarshalVerifiableDoc(buf)
+		if err != nil {
+			failRT(rt, "export-history", k.c, bEx, buf, "import of a kept blob failed: %v", err)
+		}
+		for i := range buf {
+			buf[i] ^= 0xA5
+		}
+		if d := sameFiles(k.c, doc); d != "" {
+			failRT(rt, "import-aliases-input", k.c, bEx, k.blobs[bEx], "the imported document changed when the caller overwrote the blob it was imported from: %s", d)
+		}
+		if d := sameEvidence(k.c.Ev, bundle); d != "" {
+			failRT(rt, "import-aliases-input", k.c, bEx, k.blobs[bEx], "the imported evidence changed when the caller overwrote the blob it was imported from: %s", d)
+		}
+		// exporting the same document twice gives equal blobs, and overwriting the first does not affect the second
+		again := export(rt, k.c, k.doc)
+		for _, kind := range []blobKind{bDoc, bEx, bEv} {
+			if !bytes.Equal(again[kind], k.copies[kind]) {
+				failRT(rt, "export-history", k.c, kind, again[kind], "exporting the same %s twice gives different blobs", blobName[kind])
+			}
+		}
+		evid.Count("export-history-blobs-checked", int64(3*n))
+	})
+}
+
+// perturbEvidence returns evidence of the same shape (same mechanisms, same field
+// lengths) with other values.
+func perturbEvidence(rt *rapid.T, e evidence) evidence {
+	flip := func(b []byte, label string) []byte {
+		if len(b) == 0 {
+			return b
+		}
+		o := bytes.Clone(b)
+		o[rapid.IntRange(0, len(o)-1).Draw(rt, label)] ^= byte(rapid.IntRange(1, 255).Draw(rt, label+"x"))
+		return o
+	}
+	out := e
+	if e.AA != nil {
+		a := *e.AA
+		a.Nonce, a.Signature = flip(a.Nonce, "aa-nonce"), flip(a.Signature, "aa-sig")
+		out.AA = &a
+	}
+	if e.CA != nil {
+		c := *e.CA
+		c.SmRapdu, c.TermPubKey = flip(c.SmRapdu, "ca-rapdu"), flip(c.TermPubKey, "ca-pub")
+		out.CA = &c
+	}
+	if e.PACE != nil {
+		p := *e.PACE
+		p.Nonce, p.EcadIC = flip(p.Nonce, "pace-nonce"), flip(p.EcadIC, "pace-ecad")
+		out.PACE = &p
+	}
+	return out
+}
